@@ -44,6 +44,35 @@ func moreAnchors() {
 		return true
 	})
 	emitB("OIDC_EMPTY_USERNAME_RETURNS", ret)
+	// which duration is the lifetime of an issued state value: cache.New(<lifetime>, <cleanup>) in OIDCConfig.New
+	var args []string
+	for _, c := range callsTo(findMethod("cmd/rdpgw/web/oidc.go", "OIDCConfig", "New"), "cache.New") {
+		for _, a := range c.Args {
+			args = append(args, exprString(a))
+		}
+	}
+	emitSL("OIDC_STATE_CACHE_ARGS", args)
+	// the ID-token verifier is configured with the client id only (no clock override, no skipped checks)
+	var fields []string
+	ast.Inspect(findFunc("cmd/rdpgw/main.go", "initOIDC"), func(n ast.Node) bool {
+		if cl, ok := n.(*ast.CompositeLit); ok && exprString(cl.Type) == "oidc.Config" {
+			for _, e := range cl.Elts {
+				if kv, ok := e.(*ast.KeyValueExpr); ok {
+					fields = append(fields, exprString(kv.Key))
+				}
+			}
+		}
+		return true
+	})
+	emitSL("OIDC_VERIFIER_CONFIG_FIELDS", fields)
+	// likewise for the NTLM verifier's per-session contexts
+	var nargs []string
+	for _, c := range callsTo(findFunc("cmd/auth/ntlm/ntlm.go", "NewNTLMAuth"), "cache.New") {
+		for _, a := range c.Args {
+			nargs = append(nargs, exprString(a))
+		}
+	}
+	emitSL("NTLM_CONTEXT_CACHE_ARGS", nargs)
 }
 
 // configAnchors: the key-length tests, the fatal checks and the default map of config.Load.
